@@ -12,8 +12,17 @@ static CC_SListIter it;
 static CC_SListZipIter zit;
 static int it_o, it_o2, it_changed;
 static int sparse;   /* obs=sparse on a constructor line: no observation through the library except by `observe` */
+/* `phys=quiet` on a constructor line (scale histories), as in shim_list.c: per slot size / head / tail / first / last and two
+   FNV-1a-64 checksums — `nck` over the data along `next`, `lck` over (display id, data, next id) of every node plus the ids of
+   `head` and `tail` (NULL = 2^64-1, unknown = 2^64-2; 8 little-endian bytes per number).  `observe` prints the full sections up
+   to BIGLIM nodes in total, above that checksums (`abs<k>=#<fnv>/<n>`). */
+static int quiet;
+#define BIGLIM 4000
+#define FNV0 14695981039346656037ULL
+static uint64_t fnv_mix(uint64_t h, uint64_t x) { for (int i = 0; i < 8; i++) { h ^= (x & 0xff); h *= 1099511628211ULL; x >>= 8; } return h; }
+static size_t total_nodes(void) { size_t n = 0; for (int k = 0; k < NSLOT; k++) if (L[k]) n += L[k]->size; return n; }
 static void links_reset(void);
-static void shim_reset(void) { for (int i = 0; i < NSLOT; i++) L[i] = NULL; it_kind = 0; sparse = 0; links_reset(); }
+static void shim_reset(void) { for (int i = 0; i < NSLOT; i++) L[i] = NULL; it_kind = 0; sparse = 0; quiet = 0; links_reset(); }
 
 static int cmp_num(const void *a, const void *b) { uintptr_t x = (uintptr_t)a, y = (uintptr_t)b; return verif_mag(x < y ? -1 : x > y); }
 static int cmp_key(const void *a, const void *b) { uintptr_t x = (uintptr_t)a % 10, y = (uintptr_t)b % 10; return verif_mag(x < y ? -1 : x > y); }
@@ -47,9 +56,19 @@ static void obs_slot(int k) {
         if (cc_slist_get_at(l, j, &g) != CC_OK || VAL(g) != fw[j]) { o(" GETAT%d=mismatch@%zu", k, j); break; }
     }
 }
+static void obs_slot_ck(int k) {
+    CC_SList *l = L[k];
+    void *e; size_t n = 0; uint64_t hf = FNV0;
+    CC_SListIter i; cc_slist_iter_init(&i, l);
+    while (cc_slist_iter_next(&i, &e) != CC_ITER_END && n < WLIMIT) { hf = fnv_mix(hf, VAL(e)); n++; }
+    o("abs%d=#%llu/%zu size%d=%zu", k, (unsigned long long)hf, n, k, cc_slist_size(l));
+    void *f = NULL;
+    if (cc_slist_get_first(l, &f) == CC_OK) o(" first%d=%llu", k, VAL(f)); else o(" first%d=-", k);
+    if (cc_slist_get_last(l, &f) == CC_OK) o(" last%d=%llu", k, VAL(f)); else o(" last%d=-", k);
+}
 static void obs_all(void) {
-    int any = 0;
-    for (int k = 0; k < NSLOT; k++) if (L[k]) { if (any) o(" "); obs_slot(k); any = 1; }
+    int any = 0, big = quiet && total_nodes() > BIGLIM;
+    for (int k = 0; k < NSLOT; k++) if (L[k]) { if (any) o(" "); if (big) obs_slot_ck(k); else obs_slot(k); any = 1; }
     if (!any) o("none");
     sweep_slot = -1;
 }
@@ -140,11 +159,45 @@ static void phys_slot(int k) {
     o_links(k);
     if (walk) o(" WALK=%s", walk);
 }
+static uint64_t did_num(SNode *p) { if (!p) return ~0ULL; long id = d_get(dcur, p); return id < 0 ? ~0ULL - 1 : (uint64_t)id; }
+static void phys_slot_quiet(int k) {
+    CC_SList *l = L[k];
+    const char *walk = NULL;
+    wcount = 0;
+    uint64_t nck = FNV0, lck = FNV0;
+    for (SNode *n = l->head; n && wcount < WLIMIT; n = n->next) { wnodes[wcount++] = n; nck = fnv_mix(nck, VAL(n->data)); }
+    if (wcount >= WLIMIT) walk = "cycle";
+    size_t cnt = 0;
+    for (SNode *n = l->head; n && cnt < l->size + 4; n = n->next, cnt++) {
+        lck = fnv_mix(lck, did_num(n)); lck = fnv_mix(lck, VAL(n->data)); lck = fnv_mix(lck, did_num(n->next));
+    }
+    lck = fnv_mix(lck, did_num(l->head)); lck = fnv_mix(lck, did_num(l->tail));
+    o("size%d=%zu", k, l->size);
+    if (!l->head) o(" head%d=-", k); else o(" head%d=0", k);
+    if (!l->tail) o(" tail%d=-", k); else o(" tail%d=%s", k, (wcount && l->tail == wnodes[wcount - 1]) ? "last" : "?");
+    if (wcount) o(" first%d=%llu last%d=%llu", k, VAL(wnodes[0]->data), k, VAL(wnodes[wcount - 1]->data)); else o(" first%d=- last%d=-", k, k);
+    o(" nck%d=%llu lck%d=%llu", k, (unsigned long long)nck, k, (unsigned long long)lck);
+    if (!walk && wcount != l->size) walk = "count-ne-size";
+    if (!walk && !l->head && l->tail) walk = "head-null-tail-not";
+    if (!walk && l->head && !l->tail) walk = "tail-null-head-not";
+    if (!walk && l->tail && l->tail->next) walk = "tail-next-not-null";
+    if (!walk && block_size(l) < sizeof(CC_SList)) walk = "header-block";
+    if (it_kind == 1 && it_o == k) {
+        o(" itidx%d=%zu", k, it.index); o_ptr("itcur", k, it.current); o_ptr("itprev", k, it.prev); o_ptr("itnext", k, it.next); }
+    if (it_kind == 3 && (it_o == k || it_o2 == k)) {
+        int a = it_o == k;
+        o(" zitidx%d=%zu", k, zit.index);
+        o_ptr("zitcur", k, a ? zit.l1_current : zit.l2_current); o_ptr("zitprev", k, a ? zit.l1_prev : zit.l2_prev);
+        o_ptr("zitnext", k, a ? zit.l1_next : zit.l2_next); }
+    if (walk) o(" WALK=%s", walk);
+}
+static int phys_full_now;   /* set by `observe` in a quiet session when the lists are small enough for the full dump */
 static void phys(void) {
     int any = 0;
     links_prepass();
-    for (int k = 0; k < NSLOT; k++) if (L[k]) { if (any) o(" "); phys_slot(k); any = 1; }
+    for (int k = 0; k < NSLOT; k++) if (L[k]) { if (any) o(" "); if (quiet && !phys_full_now) phys_slot_quiet(k); else phys_slot(k); any = 1; }
     if (!any) o("-");
+    phys_full_now = 0;
 }
 
 static void fill_conf(CC_SListConf *conf) {
@@ -166,8 +219,9 @@ static void do_op(Cmd *c) {
             for (int i = 0; un[i]; i++) if (is_op(c, un[i])) links_renumber = 1;
     }
     if (!strncmp(c->op, "new", 3) && !strcmp(kv_str(c, "obs", "full"), "sparse")) sparse = 1;
+    if (!strncmp(c->op, "new", 3) && !strcmp(kv_str(c, "phys", "full"), "quiet")) quiet = 1;
     if (k < 0 || k >= NSLOT || from < 0 || from >= NSLOT || to < 0 || to >= NSLOT) { o("st=- badslot "); goto done; }
-    if (is_op(c, "observe")) { o("st=- "); sweep_slot = -1; obs_all(); o_sep(); phys(); return; }
+    if (is_op(c, "observe")) { o("st=- "); sweep_slot = -1; obs_all(); o_sep(); phys_full_now = !(quiet && total_nodes() > BIGLIM); phys(); return; }
     CC_SList *l = L[k];
     if (is_op(c, "new")) {
         if (l) { o("st=- busy "); goto done; }
@@ -233,6 +287,11 @@ static void do_op(Cmd *c) {
     } else if (!l) { o("st=- nosession"); o_sep(); phys(); return;
     } else if (is_op(c, "drop")) { cc_slist_destroy(l); L[k] = NULL; o("st=- ");
     } else if (is_op(c, "drop_cb")) { cc_slist_destroy_cb(l, cb_record); L[k] = NULL; o("st=- "); o_cb(); o(" ");
+    } else if (is_op(c, "fill")) {
+        /* `fill n=<count> seed=<s>`: count appends of the values (i * 7919 + seed * 104729) % 1000003, i = 0.. (scale histories) */
+        uint64_t cnt = kv_u64(c, "n", 0), sd = kv_u64(c, "seed", 1); enum cc_stat st = CC_OK;
+        for (uint64_t i = 0; i < cnt && st == CC_OK; i++) st = cc_slist_add(l, PTR((i * 7919ULL + sd * 104729ULL) % 1000003ULL));
+        o_stat(st); o(" ");
     } else if (is_op(c, "add")) { o_stat(cc_slist_add(l, PTR(v))); o(" ");
     } else if (is_op(c, "add_first")) { o_stat(cc_slist_add_first(l, PTR(v))); o(" ");
     } else if (is_op(c, "add_last")) { o_stat(cc_slist_add_last(l, PTR(v))); o(" ");
